@@ -28,7 +28,7 @@ func (fr *FuncRun) heapAddrTerm(a Addr) string {
 		t := "(" + fn + " " + base + ")"
 		key := "fa:" + t
 		if !hasBound(t) && fr.once(key) {
-			fr.emit(fmt.Sprintf("(assert (and (= (fa_tag %s) %d) (= (fa_base %s) %s) (< %s 0) (= (fa_root %s) (ite (> %s 0) %s (fa_root %s)))))", t, fr.w.faTag(x.Struct, x.Idx), t, base, t, t, base, base, base))
+			fr.emit(fmt.Sprintf("(assert (and (= (fa_tag %s) %d) (= (fa_base %s) %s) (< %s 0) (= (fa_root %s) (fa_root %s))))", t, fr.w.faTag(x.Struct, x.Idx), t, base, t, t, base))
 		}
 		return t
 	}
@@ -307,6 +307,7 @@ func (fr *FuncRun) allocRef(hint string) string {
 	// distinct from earlier allocations and from entry-state references: modelled with
 	// an allocation counter: fresh refs are above AllocBase and strictly increasing.
 	fr.emit(fmt.Sprintf("(assert (> %s %s))", r, fr.allocTop))
+	fr.emit(fmt.Sprintf("(assert (= (fa_root %s) %s))", r, r))
 	fr.allocTop = r
 	fr.freshRefs[r] = true
 	return r
